@@ -2,6 +2,8 @@
 From Coq Require Import String.
 From Cvg Require Import Base GoTypes Re Unicode Matcher Dump Options Front Builder.
 From Cvg.proofs Require Import TypedProofs BuilderProofs.
+From Cvg Require Import GoLib GoFuns.
+From Cvg.proofs Require Import NodeTieProofs.
 Open Scope N_scope.
 
 (** A destination field whose path matches a :skip pattern under the method's
@@ -89,3 +91,14 @@ Theorem C06_every_field_decided_by_the_precedence_chain :
                l = flat_map opt_list rs.
 Proof. exact struct_to_struct_decided. Qed.
 Print Assumptions C06_every_field_decided_by_the_precedence_chain.
+
+(** Tie to the source. The destination and source paths that :skip patterns and the
+    destinations of :map / :conv / :literal are compared with ([matcher_expr]), and the member
+    names ([obj_name]), are what /repo's Node.MatcherExpr() and Node.ObjName() compute
+    (pkg/builder/model node.go, struct.go translated into gen/GoFuns.v on every run). *)
+Theorem C06_paths_are_what_the_go_code_computes :
+  forall mo n,
+    GoNode.Node_MatcherExpr (lower_node mo n) = matcher_expr n /\
+    GoNode.Node_ObjName (lower_node mo n) = obj_name n.
+Proof. intros mo n. split; [apply matcher_expr_tie|apply obj_name_tie]. Qed.
+Print Assumptions C06_paths_are_what_the_go_code_computes.
